@@ -62,6 +62,7 @@ const (
 	HookConst  // every step's result is replaced by the constant string "K"
 	HookShout  // HookUnwrap, and every string-kind value (json.Number aside) is replaced by its upper-cased copy as a plain string
 	HookNested // identity for the value; the hook itself evaluates other expressions (re-entrant use of the library) before returning
+	HookSelf   // identity for the value; every third call of the hook evaluates the SAME evaluator on the same datum again (re-entrant, one level deep)
 )
 
 // Env is the evaluation context.
